@@ -50,21 +50,21 @@ def has(tags, pat):
     return any(re.search(pat, t) for t in tags)
 
 
-EXPORT_MSG = r"^(func|instance) not valid to be used as export"
+EXPORT_MSG = r"^(func|instance|type) not valid to be used as export"
 
 KNOWN_MATCH = {
     "C01-import-deps-unbounded-recursion":
         lambda k, m, t, mo: k == "abort" and "stack overflow" in m and has(t, r"^TRACKMIX\+uses$"),
     "C01-export-mentions-unexported-named-type":
-        lambda k, m, t, mo: k in ("late-validation-failure", "invalid-binary") and re.search(EXPORT_MSG, m) and has(t, r"^X:[AS]:(func|instance)\S*\+nn"),
+        lambda k, m, t, mo: k in ("late-validation-failure", "invalid-binary") and re.search(EXPORT_MSG, m) and has(t, r"^X:[AS]:(func|instance|type)\S*\+nn"),
     "C01-component-type-loses-instance-owned-types":
         lambda k, m, t, mo: mo == "I" and k in ("late-validation-failure", "invalid-binary") and m.startswith("func not valid to be used as export")
         and has(t, r"^S:world\+foreign-func-types$"),
     "C01-import-function-over-unnamed-type":
         lambda k, m, t, mo: k in ("late-validation-failure", "invalid-binary") and m.startswith("func not valid to be used as import") and has(t, r"^M:func\+nn"),
-    "C01-shared-type-import-not-remapped":
+    "C01-type-import-not-linked-to-function-import":
         lambda k, m, t, mo: k in ("late-validation-failure", "invalid-binary") and m.startswith("func not valid to be used as import")
-        and has(t, r"^SHARED:type\+val\+nn$") and has(t, r"^U:func\+nn"),
+        and has(t, r"^U:func\+nn") and (has(t, r"^SHARED:type\+val\+nn$") or has(t, r"^M:type\+val\+nn$") or has(t, r"^G:(inst|import|other):type\+val\+nn$")),
     "C01-define-type-with-undefined-dependency":
         lambda k, m, t, mo: k in ("late-validation-failure", "invalid-binary") and m.startswith("type not valid to be used as export")
         and has(t, r"^D:type\+(val|func)\+nn"),
@@ -72,12 +72,14 @@ KNOWN_MATCH = {
         lambda k, m, t, mo: k == "panic" and (("world must have an id" in m and has(t, r"^D:type\+world\+noid")) or
                                               ("interface must have an id" in m and has(t, r"^D:type\+iface\+noid"))),
     "C01-import-function-over-handle":
-        lambda k, m, t, mo: k == "panic" and "wac-graph/src/encoding.rs" in m and "no entry found for key" in m and has(t, r"^M:func\+nn\+h"),
+        lambda k, m, t, mo: k == "panic" and "wac-graph/src/encoding.rs" in m and "no entry found for key" in m
+        and (has(t, r"^M:func\+nn\+h") or (has(t, r"^U:func\+nn\+h") and has(t, r"^(M|G:(inst|import|other)):type\+res$"))),
     "C01-value-import-unused":
         lambda k, m, t, mo: k in ("late-validation-failure", "invalid-binary") and m.startswith("value index N was not used") and has(t, r"^M:value$"),
     "C01-resource-identity-across-arguments":
         lambda k, m, t, mo: k in ("late-validation-failure", "invalid-binary") and "resource types are not the same" in m
-        and has(t, r"^U:instance\S*\+uses\S*\+res") and has(t, r"^G:inst:instance\S*\+res"),
+        and ((has(t, r"^(U|M|G:import):instance\S*\+uses\S*\+res") and has(t, r"^G:inst:instance\S*\+res"))
+             or (has(t, r"^G:(inst|import|other):type\+res$") and has(t, r"^U:func\+nn\+h"))),
     "C01-merge-conflict-span-panic":
         lambda k, m, t, mo: k == "panic" and "wac-parser/src/resolution.rs" in m and "no entry found for key" in m and has(t, r"^M:"),
     # the C05 encoder findings that surface as late validation failures or encoder panics (same signatures as under C05)
@@ -105,7 +107,7 @@ PROPOSED_KNOWN = [
               "(no EncodeError, not catchable)"),
     dict(property=PID, id="C01-export-mentions-unexported-named-type", status="known",
          witness="H reg 11;reg 9;reg 10;inst 2 0;alias 0 19;alias 1 21;export 2 1;name 1 23",
-         signature="`func|instance not valid to be used as export` in both dependency modes; the exported node is an alias of an instance "
+         signature="`func|instance|type not valid to be used as export` in both dependency modes; the exported node is an alias of an instance "
                    "export (or an instantiation) whose type mentions a record/variant/enum/flags/handle type (tag X:A|S:...+nn)",
          text="exporting an item obtained from an instantiation whose type mentions a named value type that the composition neither "
               "imports nor exports (e.g. `get: func() -> r` of u:producer's api) is accepted by export(); encode returns "
@@ -121,11 +123,17 @@ PROPOSED_KNOWN = [
                    "record/variant/enum/flags type (tag M:func+nn)",
          text="import(name, ItemKind::Func(f)) with f over a record that is not itself imported is accepted; the encoder emits the "
               "record as an anonymous local type and the output is invalid"),
-    dict(property=PID, id="C01-shared-type-import-not-remapped", status="known", witness=_w("k-shared-type"),
-         signature="`func not valid to be used as import`; two instantiations implicitly import ONE type name with different copies of "
-                   "the type (tag SHARED:type+val+nn) and one of them also imports a function over its copy (tag U:func+nn)",
+    dict(property=PID, id="C01-type-import-not-linked-to-function-import", status="known", witness=_w("k-shared-type"),
+         signature="`func not valid to be used as import`; an implicit function import over a record/variant/enum/flags type (tag U:func+nn) "
+                   "while that type is a top-level type import that is not linked to it: either two instantiations import ONE type name "
+                   "with different copies of the type (tag SHARED:type+val+nn), or the type is an EXPLICIT import node, which is emitted "
+                   "after the implicit function imports (tag M:type+val+nn), or the type import is satisfied by an argument and so not imported "
+                   "at all (tag G:inst|import:type+val+nn)",
          text="w:local-out and w:local both import the record `cfg`; the aggregator keeps the first copy, `setup: func(c: cfg)` still "
-              "refers to the second and is encoded over an anonymous local record"),
+              "refers to the second and is encoded over an anonymous local record. Second shape (`H reg 25;inst 0 0;imp 72 33;setarg 0 72 1`): "
+              "`cfg` imported explicitly and passed as argument is emitted AFTER the implicit import `setup`, which therefore re-encodes the record. "
+              "Third shape (`H reg 24;reg 13;inst 0 0;inst 1 0;alias 1 64;alias 2 43;setarg 0 43 3`): w:uses gets `point` as an argument, its "
+              "implicit import `mk: func() -> point` is encoded over an anonymous copy of the record"),
     dict(property=PID, id="C01-define-type-with-undefined-dependency", status="known", witness="H def 20 11",
          signature="`type not valid to be used as export`; a definition node whose type mentions a record/variant/enum/flags type "
                    "that is not defined (exported) itself (tag D:type+val+nn / D:type+func+nn)",
@@ -137,10 +145,13 @@ PROPOSED_KNOWN = [
          text="define_type accepts the world of a package (or an inline interface); TypeEncoder::world / ::interface `expect` an id "
               "and encode panics (second witness `H def 34 20`)"),
     dict(property=PID, id="C01-import-function-over-handle", status="known", witness="H imp 29 35",
-         signature="panic `no entry found for key` in TypeEncoder::own/borrow (encoding.rs); explicit import node of function kind "
-                   "over a resource handle (tag M:func+nn+h)",
+         signature="panic `no entry found for key` in TypeEncoder::own/borrow (encoding.rs); a function import over a resource handle whose "
+                   "resource is not imported in the scope when the function is encoded: explicit import node of function kind (tag "
+                   "M:func+nn+h), or implicit function import (tag U:func+nn+h) whose resource is an explicit import / an argument (tag "
+                   "M:type+res / G:..:type+res)",
          text="import(name, func(t: own<tok>)) is accepted; the encoder looks the resource up by name in the current scope and "
-              "panics (C08 finding F6 seen from the graph API)"),
+              "panics (C08 finding F6 seen from the graph API). Second shape (`H reg 25;inst 0 0;imp 73 34;setarg 0 73 1`): the resource `tok` "
+              "imported explicitly and passed as argument is emitted after the implicit import `burn: func(t: tok)`"),
     dict(property=PID, id="C01-value-import-unused", status="known", witness="H imp 36 17",
          signature="`value index N was not used as part of an instantiation, start function, or export`; explicit import of value kind "
                    "(tag M:value)",
@@ -148,8 +159,9 @@ PROPOSED_KNOWN = [
     dict(property=PID, id="C01-resource-identity-across-arguments", status="known",
          witness="H reg 22;reg 21;inst 1 0;alias 0 67;inst 0 0;setarg 2 67 1",
          signature="`type mismatch for import ... resource types are not the same`; an instantiation gets an instance with a resource "
-                   "from another instantiation (tag G:inst:instance..+res) while an interface that `use`s that resource stays an "
-                   "implicit import (tag U:instance..+uses..+res)",
+                   "from another instantiation (tag G:inst:instance..+res) while an interface that `use`s that resource is an "
+                   "implicit or explicit import (tag U|M|G:import:instance..+uses..+res); or an instantiation gets a resource TYPE as an "
+                   "argument (tag G:..:type+res) while a function over that resource stays an implicit import (tag U:func+nn+h)",
          text="r:user imports store and user (user uses store.blob); passing r:producer's store explicitly leaves `user` to an implicit "
               "import whose blob is the blob of a freshly imported store: every argument passed its own subtype check, the "
               "instantiation as a whole is ill-typed and only the validator notices"),
